@@ -8,8 +8,10 @@ import json
 import os
 import sys
 
-os.environ.setdefault("PYTHONDONTWRITEBYTECODE", "1")
-os.environ.setdefault("PYTHONHASHSEED", "0")
+if os.environ.get("PYTHONHASHSEED") != "0" or os.environ.get("PYTHONDONTWRITEBYTECODE") != "1":
+    # string hashing must not vary between runs of the harness: re-exec with a fixed hash seed
+    env = dict(os.environ, PYTHONHASHSEED="0", PYTHONDONTWRITEBYTECODE="1")
+    os.execve(sys.executable, [sys.executable] + sys.argv, env)
 sys.dont_write_bytecode = True
 HERE = os.path.dirname(os.path.abspath(__file__))
 sys.path.insert(0, HERE)
